@@ -39,6 +39,8 @@ void ds_advance(uint64_t ns);
 /* harness-level waiting: block the calling OS thread until some write
  * happens anywhere (never returns before a scheduling decision was made) */
 void ds_wait_change(void);
+uint64_t ds_epoch(void);
+void ds_wait_since(uint64_t e);
 /* harness-level sleep until the virtual clock reaches abs ns */
 void ds_sleep_until(uint64_t abs_ns);
 /* note that the harness wrote shared harness state */
